@@ -499,3 +499,54 @@ def np_pipeline(aniso, mshape, pairs, chains):
         out.append(acc[2] * cz)
     return np.array(out)
 
+
+def np_me(w, axis):
+    """Four-cell edge average (Model/FIT.v Me_x/_y/_z, lower index clamped) of a
+    cell array, for the edges along `axis`; upper out-of-range cells repeat the
+    last one (they only meet zero PEC field values)."""
+    pads = [(1, 1)] * 3
+    pads[axis] = (0, 0)
+    wp = np.pad(w, pads, mode='edge')
+    sl = [slice(None)] * 3
+    t1, t2 = [a for a in range(3) if a != axis]
+
+    def part(o1, o2):
+        s = list(sl)
+        s[t1] = slice(0, -1) if o1 == 0 else slice(1, None)
+        s[t2] = slice(0, -1) if o2 == 0 else slice(1, None)
+        return wp[tuple(s)]
+    return (part(0, 0) + part(0, 1) + part(1, 0) + part(1, 1)) / 4
+
+
+def np_jvec_source(aniso, e, smu0, vol, ent, v4, chains):
+    """numpy mirror of Model/Adjoint.v jvec_source_T (ent=None: same grid):
+    chain factor on the MODEL grid, then the volume-average matrix, stacking,
+    -smu0 * e * Me(vol * dsigma).  Returns (fx, fy, fz)."""
+    cx, cy, cz = chains
+    if aniso == 0:
+        cm = [v4[0] * cx]
+    elif aniso == 1:
+        cm = [v4[0] * cx, v4[1] * cy]
+    elif aniso == 2:
+        cm = [v4[0] * cx, v4[1] * cz]
+    else:
+        cm = [v4[0] * cx, v4[1] * cy, v4[2] * cz]
+    if ent is not None:
+        cc = []
+        for a in cm:
+            o = np.zeros(vol.shape)
+            for m, c, w in ent:
+                o[c[0], c[1], c[2]] += w * a[m[0], m[1], m[2]]
+            cc.append(o)
+    else:
+        cc = cm
+    if aniso == 0:
+        tri = (cc[0], cc[0], cc[0])
+    elif aniso == 1:
+        tri = (cc[0], cc[1], cc[0])
+    elif aniso == 2:
+        tri = (cc[0], cc[0], cc[1])
+    else:
+        tri = tuple(cc)
+    return tuple(-smu0 * getattr(e, 'f' + 'xyz'[a]) * np_me(vol * tri[a], a) for a in range(3))
+
